@@ -1,5 +1,4 @@
-import LanceModel.C40.MergeLemmas
-import LanceModel.C40.Spec
+import LanceModel.C40.ProjLemmas
 /-
 C40 — Arrow helper transformations preserve values.
 
@@ -132,10 +131,13 @@ def merge_full : Prop :=
       mergeRow rn (tyOfCols rc) ln (tyOfCols lc)
         ((logical (.struct llen none ln lc)).getD i .null) ((logical (.struct rlen none rn rc)).getD i .null))
 
-/-- FULL statement for `project_by_schema` (not yet proved in Lean; evaluated by the harness oracle `spec_project`) -/
-def project_full : Prop :=
-  ∀ (a b : Arr) (names : List String) (tys : List Ty), wf a = true → projectBatch a names tys = .ok b →
-    logical b = (logical a).map (projectRow names tys)
+/-! ### lib.rs: project_by_schema -/
+
+/-- `RecordBatchExt::project_by_schema`: every row of the result is the row-wise projection `projectRow` (requested fields
+    in the requested order, struct fields narrowed recursively, NULL struct rows stay NULL, nested validity preserved) -/
+theorem project_by_schema_spec (a b : Arr) (names : List String) (tys : List Ty) (hw : wf a = true)
+    (h : projectBatch a names tys = .ok b) : logical b = (logical a).map (projectRow names tys) :=
+  logical_projectBatch a b names tys hw h
 
 /-! ### lib.rs: take -/
 
@@ -178,6 +180,14 @@ example : wf (.struct 3 (some ⟨1, [true, true, false, true]⟩) ["l"] [exList]
 /-- merge of two batches whose struct column `s` has different validity on the two sides -/
 def exL : Arr := .struct 2 none ["s"] [.struct 2 (some ⟨0, [false, true]⟩) ["a"] [.prim false 0 2 none [1, 2]]]
 def exR : Arr := .struct 2 none ["s"] [.struct 2 none ["b"] [.prim false 0 2 none [3, 4]]]
+def Res.isOk {α : Type} : Res α → Bool
+  | .ok _ => true
+  | .err _ => false
+example : (projectBatch exL ["s"] [.struct [] []]).isOk = true := by
+  simp [projectBatch, projectCols, exL, hasNull, validAt, findCol, Ty.beqList, Ty.beq, tyOfCols, tyOf, Res.isOk]
+example : (projectBatch exL ["s"] [.struct ["a"] [.int]]).isOk = true := by
+  simp [projectBatch, projectCols, exL, hasNull, validAt, findCol, Ty.beqList, Ty.beq, tyOfCols, tyOf, Res.isOk]
+example : wf exL = true := by decide
 example : ∃ m, mergeStruct 64 exL exR = .ok m := ⟨_, rfl⟩
 example : ∃ m, mergeWS 64 exL exR ["s"] [.struct ["b", "a"] [.int, .int]] = .ok m := ⟨_, rfl⟩
 
